@@ -26,6 +26,13 @@ OWN_LOGIC = {"write_f32", "write_f64", "write_number_str", "write_string_fragmen
 
 
 def run(ctx):
+    _run(ctx)
+    if ctx.pid == "C18":
+        from . import c19
+        c19.verified_passthrough(ctx, "doc")
+
+
+def _run(ctx):
     db = ctx.db
     ctx.explanation = (
         "Decides structurally: completeness of the Formatter override set against the locked serde_json's hook list; floats "
